@@ -12,7 +12,8 @@
 (* cb (error-function invocations: [cat, one]), operation arguments and    *)
 (* results as in CalStore's operation records, obs (projections).          *)
 (*                                                                         *)
-(* Projection of one store: vc, end (get_calibration_end), slots (for      *)
+(* Projection of one store: vc, end (get_calibration_end), find            *)
+(* (find_calibration of every pool name), slots (for                       *)
 (* ci = 0 .. beyond the end: x = 0 when get_name fails, else every         *)
 (* getter's answer and the per-calibration property document read through  *)
 (* the vnacal_property functions), gprops (global document), pv (for every *)
@@ -29,6 +30,18 @@ VARIABLES stores, saved, l
 tvars == <<stores, saved, l>>
 
 ProbeF == <<0, 1, 2, 3, 4, 5>>
+
+(* ids of the driver's calibration-name pool (strings that are prefixes /  *)
+(* suffixes / case and space variants of each other, > 256 bytes, UTF-8,   *)
+(* YAML-significant; c16..c19 are never added, only looked up).  After     *)
+(* every call vnacal_find_calibration is asked for each of them: o.find[i] *)
+(* answers NamePool[i].  Names are equal iff their ids are (exact bytes).  *)
+NamePool == <<"c0", "c1", "c2", "c3", "c4", "c5", "c6", "c7", "c8", "c9",
+              "c10", "c11", "c12", "c13", "c14", "c15", "c16", "c17", "c18",
+              "c19">>
+
+FindVal(s, nm) == LET same == SlotOfName(s, nm)
+                  IN IF same = {} THEN -1 ELSE CHOOSE c \in same : TRUE
 
 RECURSIVE FromObs(_)
 FromObs(o) ==
@@ -138,6 +151,10 @@ ObsOK(e, s, o) ==
                   <<l, e, "obs.slot", <<i - 1, ExpectedSlot(s, i - 1)>>>>)
     /\ Explain(\A c \in DOMAIN s.slots : c < Len(o.slots),
                <<l, e, "obs.slotsShort", DOMAIN s.slots>>)
+    /\ Explain(Len(o.find) = Len(NamePool) /\
+               \A i \in 1..Len(NamePool) : o.find[i] = FindVal(s, NamePool[i]),
+               <<l, e, "obs.find",
+                 [i \in 1..Len(NamePool) |-> FindVal(s, NamePool[i])]>>)
     /\ Explain(DocIs(o.gprops, s.gprops), <<l, e, "obs.gprops", s.gprops>>)
     /\ \A i \in 1..Len(o.pv) :
           Explain(PVRowOK(s, i - 1, o.pv[i]),
